@@ -261,12 +261,12 @@ func (p *c07Parent) allPolicies() []string {
 }
 
 type c07Case struct {
-	ID       string     `json:"case"`
-	Parent   *c07Parent `json:"parent"`
-	Req      c07Req     `json:"request"`
-	Sudo     bool       `json:"ref_sudo_on_path"`
-	Update   bool       `json:"ref_update_on_path"`
-	CrossNS  bool       `json:"cross_namespace"`
+	ID       string        `json:"case"`
+	Parent   *c07Parent    `json:"parent"`
+	Req      c07Req        `json:"request"`
+	Sudo     bool          `json:"ref_sudo_on_path"`
+	Update   bool          `json:"ref_update_on_path"`
+	CrossNS  bool          `json:"cross_namespace"`
 	MountMax time.Duration `json:"mount_max_ttl"`
 }
 
@@ -289,7 +289,7 @@ type c07View struct {
 	NSPath        string        `json:"namespace_path"`
 	HasNS         bool          `json:"-"`
 	CIDRs         []string      `json:"bound_cidrs,omitempty"`
-	HasCIDRs      bool          `json:"-"` // this view reports CIDR binding
+	HasCIDRs      bool          `json:"-"`         // this view reports CIDR binding
 	CustomID      bool          `json:"custom_id"` // the token is reachable under the caller-chosen id
 }
 
@@ -578,16 +578,16 @@ func c07Asks(c *c07Case) []string {
 // ---------------------------------------------------------------- logins
 
 type c07Login struct {
-	ID        string         `json:"case"`
-	NS        string         `json:"ns"`
-	Mount     string         `json:"mount"`
-	Claim     map[string]any `json:"claimed_auth"` // what the auth backend returns
-	Policies  []string       `json:"-"`
-	NoDefault bool           `json:"-"`
-	TTL, MaxTTL, Period, ExplicitMax time.Duration `json:"-"`
-	MountMax  time.Duration  `json:"mount_max_ttl"`
-	MountType string         `json:"mount_token_type"`
-	IdentityPolicies []string `json:"identity_policies,omitempty"` // policies the harness put on the alias' entity / its group
+	ID                               string         `json:"case"`
+	NS                               string         `json:"ns"`
+	Mount                            string         `json:"mount"`
+	Claim                            map[string]any `json:"claimed_auth"` // what the auth backend returns
+	Policies                         []string       `json:"-"`
+	NoDefault                        bool           `json:"-"`
+	TTL, MaxTTL, Period, ExplicitMax time.Duration  `json:"-"`
+	MountMax                         time.Duration  `json:"mount_max_ttl"`
+	MountType                        string         `json:"mount_token_type"`
+	IdentityPolicies                 []string       `json:"identity_policies,omitempty"` // policies the harness put on the alias' entity / its group
 }
 
 func c07JudgeLogin(l *c07Login, v *c07View) []c07Finding {
